@@ -284,6 +284,14 @@ def deg_binop(op, l, r):
     if isinstance(op, ast.Div):
         if dl is not None and _is_lit(r):
             return dict(dl), bool(l.tag("litfactor") or _nonunit_lit(r))
+        if dl is None and _is_lit(l):
+            dl = {}
+        if dl is not None and dr is not None:
+            d = dict(dl)
+            for k, v in dr.items():
+                d[k] = d.get(k, 0) - v
+            d = {k: v for k, v in d.items() if v != 0}
+            return d, bool(l.tag("litfactor") or r.tag("litfactor") or _nonunit_lit(l))
         return None, None
     if isinstance(op, (ast.Add, ast.Sub)):
         if dl is not None and dr is not None and dl == dr and not _is_lit(l) and not _is_lit(r):
@@ -511,10 +519,12 @@ def attribute(I, e, b):
                 continue
             if o.kind in ("cvxvar", "cvxparam"):
                 c = o.content
-                v = Val(shape=o.shape, unit=o.unit, frame=o.frame, refs={oid}, fresh="FRESH",
+                v = Val(shape=o.shape, unit=o.unit, frame=o.frame, fresh="FRESH",
                         term=("value", o.kind, oid), tags={"kind": "ndarray", "value_of": oid})
                 if c is not None:
                     v.data, v.shp, v.ctrl = c.data, c.shp, c.ctrl
+                # a numeric snapshot: not a leaf of later problems; remembered as a solution origin
+                v.data = v.data | {f"{'sol' if o.kind == 'cvxvar' else 'par'}#{oid}"}
                 if o.kind == "cvxvar":
                     v.tags["solution_of"] = tuple(sorted(o.attrs.get("solved_by", ())))
                     v.sign = "NONNEG" if (o.attrs.get("pos") or o.attrs.get("nonneg")) else None
@@ -522,7 +532,7 @@ def attribute(I, e, b):
             elif o.kind == "cvxproblem":
                 from .ext_models import problem_closure
                 d, s, c = problem_closure(I, o)
-                vals.append(Val(data=d, shp=s, ctrl=c, refs={oid}, tags={"problem_value": oid}, shape=S(),
+                vals.append(Val(data=d, shp=s, ctrl=c, tags={"problem_value": oid}, shape=S(),
                                 term=("value", "problem", oid)))
         if vals:
             I.emit("value_load", e, base=b)
@@ -604,7 +614,7 @@ def subscript(I, e, b):
                 basic = False
     out.shape = new_axes if isinstance(new_axes, Shape) else None
     if is_cvx(b):
-        out.tags.update(cvx="expr", atom=("index", [b]), leaves=b.tag("leaves"))
+        out.tags.update(cvx="expr", atom=("index", [b]), leaves=b.tag("leaves"), index_const=ci)
         out.fresh = None
     else:
         out.fresh = b.fresh if basic else "FRESH"
